@@ -1504,6 +1504,18 @@ class TLSConnection(TLSRecordLayer):
                 publicKey = delegated_credential.cred.pub_key
                 signature_scheme = delegated_credential.cred.dc_cert_verify_algorithm
 
+            # the scheme must be one we advertised for TLS 1.3 and that
+            # can be used with the key type from the certificate
+            if not cert_ext and signature_scheme not in \
+                    self._sigHashesToList(settings,
+                                          certList=serverCertChain,
+                                          version=(3, 4)):
+                for result in self._sendError(
+                        AlertDescription.illegal_parameter,
+                        "Server selected signature scheme we didn't "
+                        "advertise or that is invalid for its certificate"):
+                    yield result
+
             if signature_scheme in (SignatureScheme.ed25519,
                                     SignatureScheme.ed448,
                                     SignatureScheme.mldsa44,
